@@ -14,6 +14,7 @@ import (
 	_ "verifharness/fam/indent"
 	_ "verifharness/fam/numbers"
 	_ "verifharness/fam/ranges"
+	_ "verifharness/fam/text"
 )
 
 func main() {
